@@ -474,6 +474,7 @@ impl App for StdApp {
                 Event::HandshakeConfirmed => self.obs.handshake_confirmed = true,
                 Event::HandshakeDataReady => {}
                 Event::ConnectionLost { reason } => self.obs.lost.push(format!("{reason:?}")),
+                Event::DatagramReceived if self.plan.no_read => {}
                 Event::DatagramReceived => {
                     while let Some(d) = cx.conn.datagrams().recv() {
                         did = true;
